@@ -4,6 +4,8 @@ package datamatrix
 // EncodeHighLevel (all six mode encoders, look-ahead) against the real bit-stream parser.
 
 import (
+	"strings"
+
 	"github.com/makiuchi-d/gozxing"
 	"github.com/makiuchi-d/gozxing/datamatrix/decoder"
 	"github.com/makiuchi-d/gozxing/datamatrix/encoder"
@@ -21,6 +23,8 @@ var verifPrefixes = []string{
 	"AIMAIMAIMA",        // 6: C40, other residue
 	"123456",            // 7: digit pairs
 	"ABC>ABC123>ABCDE",  // 8: X12, other residue
+	strings.Repeat("«äöüé»", 41) + "«ä", // 9: Base 256 run of 248 (+ free + tail: straddles the 249/250 length-field switch)
+	strings.Repeat("«äöüé»", 84), // 10: Base 256 run of 504: two-byte length field with a second byte that is not the remainder alone
 }
 
 // verifLatin1 builds the Go string (UTF-8) for n free ISO-8859-1 code points.
@@ -54,7 +58,7 @@ func VerifC02HighLevel(prefix, n, tail, shape int) {
 	msg := verifPrefixes[prefix] + free + []string{"", "A", "12", "é"}[tail]
 	// Known finding: characters >= 0x80 written with an upper shift (ASCII, C40, Text) are read
 	// back as raw bytes instead of UTF-8 text; inside a Base-256 run they are fine.
-	high = zv.Or(high, prefix == 5 || tail == 3)
+	high = zv.Or(high, prefix == 5 || prefix >= 9 || tail == 3)
 	if len(msg) == 0 {
 		zv.Reach("c02hl-empty")
 		return
